@@ -140,12 +140,14 @@ pub fn run(ctx: &Ctx) -> i32 {
          an ICE or dies by signal; plus a bounded-exhaustive grid (12 traits x 69 argument forms x type/variant/field position x 12 item skeletons incl. unions and empty enums, alone and beside a second trait item in both orders); plus a nesting ladder (16..4096) compiled in child processes; non-trivial = the mutant reaches a \
          diagnostic path (is refused); distinct by mutant hash",
     );
-    rep.assumptions.push("hangs are detected by a watchdog and reported as inconclusive (exit 2)".into());
+    rep.assumptions.push("non-termination is decided by CPU time, not wall-clock time: a request whose expansion uses up 120 CPU seconds in the child process and 60 CPU seconds inside rustc (neighbouring requests need microseconds) is reported as a violation; a child that is merely slow on the wall clock is inconclusive (exit 2)".into());
     rep.assumptions.push("panics that only occur under proc_macro2's fallback token printer are counted but not reported".into());
     let known = check::load_known();
     if let Some(p) = &ctx.replay {
         return check::replay_unit_panic(ctx, p);
     }
+    // every compilation of this check is one tiny unit: 60 CPU seconds are several hundred times what it needs
+    std::env::set_var("VERIF_RUSTC_CPU", "60");
     let n = ctx.scale(60000, 1000000);
     let trees = check::draw(ctx.seed, 0xC17, n, 520);
     let dnas: Vec<Vec<u16>> = trees.iter().map(|t| t.current()).collect();
@@ -171,7 +173,13 @@ pub fn run(ctx: &Ctx) -> i32 {
                     }
                     Expansion::Panic(format!("process died: {how} @ <crash>"))
                 },
-                engine::Iso::Hung => {
+                engine::Iso::Hung(true) => {
+                    if crash_candidates.len() < 12 {
+                        crash_candidates.push((src.clone(), format!("does not terminate: the expanding process used up {} s of CPU time on this request (its neighbours expand in microseconds)", engine::CHILD_CPU_LIMIT), dnas[i].clone()));
+                    }
+                    Expansion::Panic("does not terminate @ <loop>".into())
+                },
+                engine::Iso::Hung(false) => {
                     hung += 1;
                     Expansion::Unparsable("no answer".into())
                 },
@@ -180,9 +188,6 @@ pub fn run(ctx: &Ctx) -> i32 {
         })
         .collect();
     rep.count("expansions_that_killed_their_process", crash_candidates.len() as u64);
-    if hung > 0 {
-        rep.inconclusive.push(format!("{hung} expansions gave no answer within the watchdog time (possible hang)"));
-    }
     let mut candidates: Vec<(usize, String)> = Vec::new();
     let mut per_site: std::collections::BTreeMap<String, usize> = Default::default();
     for (i, r) in results.iter().enumerate() {
@@ -219,9 +224,21 @@ pub fn run(ctx: &Ctx) -> i32 {
                 }
                 Expansion::Unparsable("process died".into())
             },
-            engine::Iso::Hung => Expansion::Unparsable("no answer".into()),
+            engine::Iso::Hung(true) => {
+                if crash_candidates.len() < 24 {
+                    crash_candidates.push((grid[i].clone(), format!("does not terminate: the expanding process used up {} s of CPU time on this request", engine::CHILD_CPU_LIMIT), Vec::new()));
+                }
+                Expansion::Unparsable("does not terminate".into())
+            },
+            engine::Iso::Hung(false) => {
+                hung += 1;
+                Expansion::Unparsable("no answer".into())
+            },
         })
         .collect();
+    if hung > 0 {
+        rep.inconclusive.push(format!("{hung} expansions gave no answer within the wall-clock watchdog (possible hang, not confirmed by CPU time)"));
+    }
     let mut grid_candidates: Vec<(usize, String)> = Vec::new();
     for (i, r) in grid_res.iter().enumerate() {
         rep.evaluations += 1;
@@ -268,7 +285,7 @@ pub fn run(ctx: &Ctx) -> i32 {
                     continue;
                 }
                 rep.violations.push(Failure {
-                    msg: format!("the shipping macro panics (in-process: {m}); rustc: {:?} {:?}", o.compile_errors.iter().take(2).collect::<Vec<_>>(), o.died),
+                    msg: format!("the shipping macro does not end with items or a diagnostic (in-process: {m}); rustc: {:?} {:?}", o.compile_errors.iter().take(2).collect::<Vec<_>>(), o.died),
                     dna: dna.clone(),
                     variant: if dna.is_empty() { "grid-panic".into() } else { "panic".into() },
                     source: src.clone(),
